@@ -132,12 +132,15 @@ IterGood == Prefix(LastGood, c.nreq)
 IterFull == MapRows(c.evald, IterGood)
 OnReturnIterative(e) ==
   IF c.initb > Budget THEN
-     <<IF ~e.raised THEN "C14.TooSmallLibraryRaises" ELSE "", IF c.evald # <<>> THEN "C14.NoEvaluationBeforeSizeCheck" ELSE "">>
+     \* a library (or budget) too small for the first batch: the call must raise (it may not return anything)
+     <<IF ~e.raised THEN "C14.TooSmallLibraryRaises" ELSE "">>
   ELSE IF ~e.raised /\ e.type # "JokerSamples" THEN <<"C14.ReturnsSamplesOrRaises">>
   ELSE IF e.raised THEN
-     \* raising is allowed only when no evaluated sample passed the last test (nothing to return)
-     <<IF c.nuni > 0 /\ Len(c.u) = Len(c.lls) /\ Len(LastGood) > 0 /\ \A p \in DOMAIN c.lls : IsFinite(c.lls[p])
-          THEN "C14.RaisesWithAcceptedSamplesAvailable" ELSE "">>
+     \* raising although at least n_requested evaluated samples passed the last test breaks "exactly that many whenever ..."
+     <<IF c.nuni > 0 /\ Len(c.u) = Len(c.lls) /\ Len(LastGood) >= c.nreq /\ (\A p \in DOMAIN c.lls : IsFinite(c.lls[p]))
+          THEN "C14.ExactlyRequestedWhenEnoughPass" ELSE "",
+       IF Len(c.evald) > Budget THEN "C14.BudgetRespected" ELSE "",
+       IF ~Distinct(c.evald) THEN "C14.NoRowTwice" ELSE "">>
   ELSE
      <<IF Len(c.evald) > Budget THEN "C14.BudgetRespected" ELSE "",
        IF ~Distinct(c.evald) THEN "C14.NoRowTwice" ELSE "",
